@@ -589,8 +589,8 @@ def run_property(prop, tier, replay_file=None, only=None, jobs=None, keep=False)
                     remaining.append(fr)
             # a known finding must vanish when its input class is excluded
             for (uu, fr, k) in [h for h in known_hits if h[0] is u]:
-                if k.get("exclude") and not k.get("_checked"):
-                    k["_checked"] = True
+                if k.get("exclude") and u.name not in k.setdefault("_checked", set()):
+                    k["_checked"].add(u.name)
                     u2 = Unit(**{**_unit_kwargs(u), "name": u.name + "__kf", "defines": u.defines + [k["exclude"]]})
                     r2 = verify_unit(u2, prop, specdir, outroot, tier, budget)
                     if r2["status"] == "failed":
